@@ -118,6 +118,12 @@ def minifyDimension (o : Opts) (data : List Char) : List Char × List Char :=
   let tail := if m == ['0'] then zeroTail o numPart else 0
   (m ++ dim, aliasedDim dim tail)
 
+/-- the zero-unit cut of `minifyTokens`: `d` = minified lexeme, `dimSeen` = unit bytes as `minifyDimension`
+    returned them, `fn` = hash of the enclosing function (`[]` = none or unknown) -/
+def zeroCut (prop fn d dimSeen : List Char) : List Char :=
+  if 1 < d.length && d.head? == some '0' && optionalZeroDimension.contains dimSeen && prop != S "flex" && fn == [] then ['0']
+  else d
+
 /-- `removeMarkupNewlines` once a first `\`-newline has been found: drop every `\` + newline -/
 def dropEscapedNewlines : List Char → List Char
   | '\\' :: '\r' :: '\n' :: r => dropEscapedNewlines r
@@ -301,9 +307,7 @@ def minifyTok (o : Opts) (prop fn : List Char) : Nat → Tok → Option Tok
     | .dimension =>
       if !dimInDomain t.data then none else
       let (d, dim) := minifyDimension o t.data
-      if 1 < d.length && d.head? == some '0' && optionalZeroDimension.contains dim && prop != S "flex" && fn == [] then
-        some (.mk .dimension ['0'] [])
-      else some (.mk .dimension d [])
+      some (.mk .dimension (zeroCut prop fn d dim) [])
     | .string => some (.mk .string (removeMarkupNewlines t.data) [])
     | .url => (minifyURL t.data).map fun d => .mk .url d []
     | .function =>
